@@ -403,6 +403,20 @@ def check_private(ctx, v):
     ng.compare_outputs(prefix + ":sld", dict(zip(OUTPUTS[:3], sld)), comp, rho, lams, case, tag,
                        outputs=OUTPUTS[:3], rel=rel, ref=RT)
 
+    # a call that is rejected (and whose exception the caller catches) leaves nothing behind
+    rej = v.get("rej")
+    if rej is not None:
+        bad, where = rej
+        try:
+            if where == "private":
+                pt.neutron_scattering(bad, table=T, density=1.0)
+            else:
+                pt.neutron_scattering(bad, density=1.0)
+        except Exception:  # noqa  (any exception is a rejection)
+            pass
+        else:
+            raise Violation("c03:accepted-malformed", "neutron_scattering(%r) did not raise" % (bad,), case)
+        ctx.count("rejected-call-before-public:" + where)
     # the public table still gives its own answers
     pub_after = ng.flatten(pt.neutron_scattering(pub_obj, wavelength=lams[0], **pub_kw))
     for o in OUTPUTS:
@@ -560,7 +574,10 @@ def strat_private():
     single = st.fixed_dictionaries({"kind": st.just("atom"), "spec": st.sampled_from(E["with_data"])})
     dens = st.tuples(st.sampled_from(["density", "density", "natural_density"]), ng.density_value()).map(list)
     return st.fixed_dictionaries({"comp": st.one_of(ng.flat_compound(max_atoms=5), ng.tree_compound(depth=2), single),
-                                  "route": st.integers(0, 11), "dens": dens, "wl": ng.wavelength_arg(max_len=4)})
+                                  "route": st.integers(0, 11), "dens": dens, "wl": ng.wavelength_arg(max_len=4),
+                                  "rej": st.one_of(st.none(), st.tuples(
+                                      st.sampled_from(["Qq2O", "H2O)", "Fe[999]O", "Fe{9+}O", "H2O@", "(H2O", "H2 O3 Zz"]),
+                                      st.sampled_from(["private", "private", "public"])).map(list))})
 
 
 def task_private(ctx, n):
